@@ -62,15 +62,20 @@ Theorem keyword_binding_shadows_and_is_restored : forall fl e n v st r st' fid o
 Proof. exact kw_shadowing. Qed.
 Print Assumptions keyword_binding_shadows_and_is_restored.
 
-(** a fresh name: appended to the global frame for the evaluation proper and removed afterwards.
-    PARTIAL: that no second binding of the name is left needs the keys of the global frame to be distinct after the
-    evaluation proper (an invariant of define, which refuses a bound name, not proved for the whole evaluator) *)
+(** a fresh name: appended to the global frame for the evaluation proper and removed afterwards; in a state where no
+    frame binds a name twice (every reachable state, props C06 / FrameInv.v) the name is unbound again afterwards *)
 Theorem keyword_binding_of_a_fresh_name_is_removed : forall fl e n v st r st',
   lookup_frame st global_id n = None -> wal_eval_with fl e [(n, v)] st = Ok r st' ->
   exists st_b st_r, gbinds st_b = (gbinds st ++ [(n, v)])%list /\ kw_body fl e st_b = Ok r st_r /\
     gbinds st' = adel n (gbinds st_r) /\ (NoDup (map fst (gbinds st_r)) -> alookup n (gbinds st') = None).
 Proof. exact kw_fresh_gone. Qed.
 Print Assumptions keyword_binding_of_a_fresh_name_is_removed.
+
+Theorem keyword_binding_of_a_fresh_name_is_unbound_afterwards : forall fl e n v st r st',
+  FrameInv.fwf st -> lookup_frame st global_id n = None -> wal_eval_with fl e [(n, v)] st = Ok r st' ->
+  alookup n (gbinds st') = None /\ FrameInv.fwf st'.
+Proof. exact kw_fresh_unbound_afterwards. Qed.
+Print Assumptions keyword_binding_of_a_fresh_name_is_unbound_afterwards.
 
 Theorem the_evaluation_proper_is : forall fl e, kw_body fl e = if ast_truthy e then run_form fl e else ret VNone.
 Proof. reflexivity. Qed.
